@@ -662,6 +662,124 @@ func runBounds(c *core.Ctx) {
 			}
 		})
 	}
+	// an index that may be a constant (the page counter reset to 0) into a list taken from a cache: nothing at the read
+	// site says how long a cached list is, so either the site proves the list long enough or every producer does — each
+	// Set on the same cache field stores a list whose length the conditions dominating the Set prove sufficient. A
+	// producer that caches an empty list makes the reset-to-first-page read panic on the next identical request.
+	c.SetTags("other")
+	cacheField := func(call ssa.CallInstruction, method string) (string, bool) {
+		callee := call.Common().StaticCallee()
+		if callee != nil && callee.Origin() != nil {
+			callee = callee.Origin()
+		}
+		if callee == nil || callee.Name() != method || callee.Signature.Recv() == nil || !strings.HasSuffix(core.FuncPkgPath(callee), "/internal/cache") {
+			return "", false
+		}
+		recv, _ := an.CallArgs(call)
+		_, pth := accessPath(an.Strip(recv))
+		if len(pth) == 0 {
+			return "", false
+		}
+		return pth[len(pth)-1], true
+	}
+	for _, fn := range serverFuncs(c) {
+		b := &boundsCtx{c: c, fn: fn}
+		n := 0
+		name := kn(c.P.FuncName(fn))
+		an.Instrs(fn, func(in ssa.Instruction) {
+			x, ok := in.(*ssa.IndexAddr)
+			if !ok {
+				return
+			}
+			if _, isSlice := x.X.Type().Underlying().(*types.Slice); !isSlice {
+				return
+			}
+			src, _ := an.CallOf(an.Origin(x.X))
+			if src == nil {
+				return
+			}
+			field, isGet := cacheField(src, "Get")
+			if !isGet {
+				return
+			}
+			// constants the index can be
+			var consts []*ssa.Const
+			var collect func(v ssa.Value, depth int)
+			seen := map[ssa.Value]bool{}
+			collect = func(v ssa.Value, depth int) {
+				v = stripInt(v)
+				if seen[v] || depth > 4 {
+					return
+				}
+				seen[v] = true
+				switch y := v.(type) {
+				case *ssa.Const:
+					consts = append(consts, y)
+				case *ssa.Phi:
+					for _, e := range y.Edges {
+						collect(e, depth+1)
+					}
+				}
+			}
+			collect(x.Index, 0)
+			if len(consts) == 0 {
+				return
+			}
+			n++
+			total++
+			key := fmt.Sprintf("cached-index:%s#%d", name, n)
+			for _, k := range consts {
+				kv, isInt := an.ConstInt(k)
+				if !isInt || kv < 0 {
+					continue
+				}
+				if b.prove(k, nil, x.X, -1, x.Block(), nil, 0) {
+					continue
+				}
+				// producers
+				nSet, badSet := 0, token.NoPos
+				for _, pf := range c.P.ModFuncs {
+					if len(pf.Blocks) == 0 {
+						continue
+					}
+					pb := &boundsCtx{c: c, fn: pf}
+					an.Calls(pf, func(call ssa.CallInstruction) {
+						f2, isSet := cacheField(call, "Set")
+						if !isSet || f2 != field {
+							return
+						}
+						_, args := an.CallArgs(call)
+						if len(args) < 2 {
+							return
+						}
+						nSet++
+						// a slice literal is as long as its backing array
+						lit := an.Strip(args[1])
+						if ct, isCT := lit.(*ssa.ChangeType); isCT {
+							lit = an.Strip(ct.X)
+						}
+						if sl, isSl := lit.(*ssa.Slice); isSl && sl.Low == nil && sl.High == nil {
+							if arr, isArr := an.Deref(sl.X.Type()).Underlying().(*types.Array); isArr && arr.Len() >= kv+1 {
+								return
+							}
+						}
+						if !pb.prove(nil, nil, lit, -(kv+1), call.Block(), nil, 0) && badSet == token.NoPos {
+							badSet = call.Pos()
+						}
+					})
+				}
+				if nSet == 0 || badSet != token.NoPos {
+					where := "no producer found"
+					if badSet != token.NoPos {
+						where = "the Set at " + c.P.Pos(badSet) + " is not dominated by a test that the list has more than " + fmt.Sprint(kv) + " element(s)"
+					}
+					c.Fail(key, x.Pos(), "element %d of a list read from the cache %s is taken at %s (the index can be the constant %d) and neither the conditions at the read nor those at every Set prove the list that long (%s): once an empty list is cached, the next identical request panics the handler", kv, field, c.P.Pos(x.Pos()), kv, where)
+					return
+				}
+			}
+			c.Pass(key, x.Pos(), "constant index into a cached list: every list stored in the cache %s is proven long enough where it is stored", field)
+		})
+	}
 	if total == 0 {
 		c.Unresolved("request-integers", "no request-derived slice or index expression found")
 	}
